@@ -1309,7 +1309,8 @@ Definition setmany_op (sch : schema) (s : sess) (h : nat) (kw : list (nat * arg)
               | Ok s4 _ => (s4, ROk)
               | Err _ er =>
                 (* a collection assignment failed: reverse sides are undone, cache.indexes is not (known finding) *)
-                ((if changed || Nat.ltb 1 (length cavs) then mark_dirty s_idx_only 3 else s2), RErr er)
+                (* (objects loaded by the failing assignment stay loaded, so the state is not claimed even when nothing else changed) *)
+                (mark_dirty (if changed || Nat.ltb 1 (length cavs) then s_idx_only else s2) 3, RErr er)
               end
         end
       end
